@@ -189,7 +189,7 @@ def strategy(tier):
 
 def budget(tier):
     if tier == 'quick':
-        return {'max_examples': 800, 'shards': 8, 'time_budget': 100}
+        return {'max_examples': 1600, 'shards': 16, 'time_budget': 100}
     return {'max_examples': 48000, 'shards': 16, 'time_budget': 1500}
 
 
